@@ -10,8 +10,11 @@
      fnd[x]  - executor x still holds extended metadata found in an earlier query
    An operation is one (query, metadata) handled on an executor:
      kind   decl | enum | block | ext | plain        what its metadata declares
-     out    ok | tfail | mfail                       succeeds / translation raises after the
-                                                     metadata was applied / metadata itself raises
+     out    ok | tfail | rfail | mfail               succeeds / the translation (write) raises after
+                                                     the metadata was applied / the client-side
+                                                     rewrite raises after the metadata was applied
+                                                     (e.g. a collection called without its bank) /
+                                                     a later metadata item itself raises
      on     same | other | otherbk                   the executor the probe will use, another
                                                      instance, an executor of another backend
    Two instantiations of the effect of an operation:
@@ -26,7 +29,7 @@ EXTENDS Naturals, Sequences, TLC, Json
 CONSTANTS MaxLen, Impl
 
 Kinds == {"decl", "enum", "block", "ext", "plain"}
-Outs  == {"ok", "tfail", "mfail"}
+Outs  == {"ok", "tfail", "rfail", "mfail"}
 Execs == {"same", "other", "otherbk"}
 Op == [kind : Kinds, out : Outs, on : Execs]
 
@@ -41,12 +44,12 @@ Init == hist = <<>> /\ Pristine
 \* as the code stood: metadata items mutate the registries as they are processed; reset()
 \* (blocks, ext md of this executor, method registry) runs only at the end of a successful write
 ApplyImpl(op) ==
-  LET applied == op.out \in {"ok", "tfail"} \/ op.kind \in {"decl", "enum"}   \* mfail: items before the bad one
+  LET applied == op.out \in {"ok", "tfail", "rfail"} \/ op.kind \in {"decl", "enum"}   \* mfail: items before the bad one
       didReset == op.out = "ok" IN
   /\ mt' = IF didReset THEN FALSE ELSE (mt \/ (op.kind = "decl" /\ applied))
   /\ en' = (en \/ (op.kind = "enum" /\ applied))
   /\ shared' = (shared \/ op.kind = "ext")
-  /\ blk' = [blk EXCEPT ![op.on] = IF didReset THEN FALSE ELSE (@ \/ (op.kind = "block" /\ op.out = "tfail"))]
+  /\ blk' = [blk EXCEPT ![op.on] = IF didReset THEN FALSE ELSE (@ \/ (op.kind = "block" /\ op.out \in {"tfail", "rfail"}))]
   /\ fnd' = [fnd EXCEPT ![op.on] = @ \/ (op.kind = "ext" /\ op.out # "mfail")]
 
 ApplyRequired(op) == mt' = FALSE /\ en' = FALSE /\ shared' = FALSE
